@@ -27,14 +27,14 @@ def binds_param(F, b, param_pred, depth=4):
 def run(ctx):
     F = ctx.facts("dbg")
     wo = [b for b in F.all_bodies(CR) if c02.in_scope(b) and any(c.name == "push_integer" for c in b.calls()) and
-          any(b.locals[i]["ty"] in ("core::option::Option<u64>", "u64") for i in range(1, b.arg_count + 1)) and any("Observation" in b.locals[i]["ty"] and not b.locals[i]["ty"].startswith("impl") for i in range(1, b.arg_count + 1))]
+          any(b.locals[i]["ty"] in weight_types(F) or b.locals[i]["ty"] == "u64" for i in range(1, b.arg_count + 1)) and any("Observation" in b.locals[i]["ty"] and not b.locals[i]["ty"].startswith("impl") for i in range(1, b.arg_count + 1))]
     wo = [b for b in wo if sum(1 for i in range(1, b.arg_count + 1) if "PrefixedStringBuf" in b.locals[i]["ty"]) >= 2 and
           not any("Iterator" in b.locals[i]["ty"] for i in range(1, b.arg_count + 1))]
     ctx.floor("R03.1", "observation writers (two buffers + observation + multiplicity)", len(wo), 1)
     for b in wo:
-        pr = Prov(b, multi={"core::option::Option::<T>::unwrap_or": (0, 1)})
+        pr = Prov(b, multi=dict({"core::option::Option::<T>::unwrap_or": (0, 1)}, **{d_: (0,) for d_ in weight_accessors(F)}))
         # the weight parameter: the optional multiplicity itself, or (unwrapped by the caller with the default 1) a plain u64
-        mult = ([i for i in range(1, b.arg_count + 1) if b.locals[i]["ty"] == "core::option::Option<u64>"] or
+        mult = ([i for i in range(1, b.arg_count + 1) if b.locals[i]["ty"] in weight_types(F)] or
                 [i for i in range(1, b.arg_count + 1) if b.locals[i]["ty"] == "u64"])[0]
         bufs = [i for i in range(1, b.arg_count + 1) if "PrefixedStringBuf" in b.locals[i]["ty"]]
         counts = bufs[1]
@@ -84,7 +84,7 @@ def run(ctx):
                     n_agg += 1
                     op = s["rv"]["ops"][s["rv"]["fields"].index(mf_[0])]
                     o = Prov(b).operand(op)
-                    ctx.check(any(x[0] == "arg" and b.locals[x[1]]["ty"] == "core::option::Option<u64>" for x in o) and not any(x[0] == "const" for x in o),
+                    ctx.check(any(x[0] == "arg" and b.locals[x[1]]["ty"] in weight_types(F) for x in o) and not any(x[0] == "const" for x in o),
                               "R03.1", fnkey(b) + "#writer-multiplicity-from-parameter", loc(b, i), "per-call writer multiplicity origins: %s" % sorted(map(str, o)))
                 fe = [e for e in s.get("lhs", {}).get("p", []) if e[0] == "f"] if s["k"] == "assign" else []
                 if fe and fe[-1][2] in mult_fields(F) and fe[-1][3].startswith(CR):
@@ -485,11 +485,42 @@ def run(ctx):
     return EXPL
 
 
+def weight_types(F):
+    """types that carry the per-call sampling multiplicity: Option<u64>, or a private two-variant enum of the crate with one empty variant
+    (unsampled) and one variant holding a single u64 (the weight) -> {type: name of the variant that holds the weight}"""
+    c_ = getattr(F, "_weight_types", None)
+    if c_ is None:
+        c_ = {"core::option::Option<u64>": "Some"}
+        for d, a in F.adts.items():
+            if a["crate"] != CR or len(a["variants"]) != 2:
+                continue
+            empty = [v for v in a["variants"] if not v["fields"]]
+            held = [v for v in a["variants"] if len(v["fields"]) == 1 and v["fields"][0]["ty"] == "u64"]
+            if len(empty) == 1 and len(held) == 1:
+                c_[d] = held[0]["name"]
+        F._weight_types = c_
+    return c_
+
+
+def weight_accessors(F):
+    """private one-argument functions turning a weight type into the plain factor: u64 result that is the held weight or the constant 1"""
+    c_ = getattr(F, "_weight_accessors", None)
+    if c_ is None:
+        c_ = set()
+        for hb in F.all_bodies(CR):
+            if hb.arg_count == 1 and hb.locals[1]["ty"].replace("&", "").strip() in weight_types(F) and hb.locals[0]["ty"] == "u64":
+                o = {x for x in Prov(hb).local(0) if x[0] != "via"}
+                if o and all((x[0] == "arg" and x[1] == 1) or x == ("const", ("int", 1)) for x in o):
+                    c_.add(hb.def_)
+        F._weight_accessors = c_
+    return c_
+
+
 def mult_fields(F):
     """names of the Option<u64> fields of crate types (role: the per-call sampling multiplicity), whatever they are called"""
     c_ = getattr(F, "_mult_fields", None)
     if c_ is None:
-        c_ = {f["name"] for a in F.adts.values() if a["crate"] == CR for v in a["variants"] for f in v["fields"] if f["ty"] == "core::option::Option<u64>"}
+        c_ = {f["name"] for a in F.adts.values() if a["crate"] == CR for v in a["variants"] for f in v["fields"] if f["ty"] in weight_types(F)}
         F._mult_fields = c_
     return c_
 
@@ -508,7 +539,7 @@ def thread_param(F, b, p, depth):
                 dflt = op_const(cb.term(x[1])["args"][1]) or {}
                 if dflt.get("int") != 1:
                     return False, "%s unwraps the multiplicity with default %s (an unsampled entry must count once)" % (cb.path, dflt.get("int", "?"))
-        o = Prov(cb, extra_adapters=("core::option::Option::<T>::unwrap_or",)).operand(cs.args[p - 1])
+        o = Prov(cb, extra_adapters=("core::option::Option::<T>::unwrap_or",), multi={d_: (0,) for d_ in weight_accessors(F)}).operand(cs.args[p - 1])
         o = {x for x in o if x[0] != "via"}
         if any(x[0] == "const" for x in o) or any(x[0] == "agg" for x in o):
             return False, "%s passes a constant multiplicity to %s" % (cb.path, b.name)
@@ -518,7 +549,7 @@ def thread_param(F, b, p, depth):
         for x in args:
             if x[2] and x[2][-1] in mult_fields(F):
                 continue        # field of the per-call writer
-            if not x[2] and cb.locals[x[1]]["ty"] == "core::option::Option<u64>" and depth > 0:
+            if not x[2] and cb.locals[x[1]]["ty"] in weight_types(F) and depth > 0:
                 ok, how = thread_param(F, cb, x[1], depth - 1)
                 if not ok:
                     return False, how
